@@ -6,31 +6,39 @@ HERE = os.path.abspath(os.path.join(os.path.dirname(os.path.abspath(__file__)), 
 ENV = dict(os.environ, GOFLAGS="-mod=mod", GOPROXY="off", GOSUMDB="off", GOTOOLCHAIN="local"); ENV.pop("GOWORK", None)
 props = subprocess.run([os.path.join(HERE, "bin", "riecheck"), "-property", "list"], capture_output=True, text=True).stdout.split()
 rows, bad = [], 0
-for p in sorted(glob.glob(os.path.join(HERE, "selftest", "ALL", "neg-*.diff"))):
+GLOB = os.environ.get("NEG_GLOB", os.path.join(HERE, "selftest", "ALL", "neg-*.diff"))
+RESULT = os.environ.get("NEG_RESULT", os.path.join(HERE, "selftest", "ALL", "RESULT.md"))
+BIN = os.environ.get("RIECHECK_BIN", os.path.join(HERE, "bin", "riecheck"))
+only = sys.argv[1:]
+for p in sorted(glob.glob(GLOB)):
+    if only and not any(o in p for o in only): continue
     scratch = tempfile.mkdtemp(prefix="rie-neg-")
     try:
         dst = os.path.join(scratch, "repo")
         shutil.copytree("/repo", dst, ignore=shutil.ignore_patterns(".git"))
         if subprocess.run(["git", "apply", "--whitespace=nowarn", p], cwd=dst).returncode != 0:
-            rows.append((os.path.basename(p), "does not apply", [])); continue
+            rows.append((p.replace(HERE + "/selftest/ALL/", ""), "does not apply", [])); continue
         b = subprocess.run(["go", "build", "./..."], cwd=dst, env=ENV, capture_output=True, text=True)
         if b.returncode != 0:
-            rows.append((os.path.basename(p), "does not compile: " + b.stderr[:120], [])); continue
-        t = subprocess.run(["go", "test", "-vet=off", "-count=1", "./..."], cwd=dst, env=ENV, capture_output=True, text=True)
-        suite = "suite ok" if t.returncode == 0 else "SUITE FAILS"
-        procs = {q: subprocess.Popen([os.path.join(HERE, "bin", "riecheck"), "-property", q, "-repo", dst, "-verif", HERE, "-no-evidence"], env=ENV, stdout=subprocess.PIPE, text=True) for q in props}
+            rows.append((p.replace(HERE + "/selftest/ALL/", ""), "does not compile: " + b.stderr[:120], [])); continue
+        if os.environ.get("NEG_SKIP_SUITE"):
+            suite = "suite not re-run"
+        else:
+            t = subprocess.run(["go", "test", "-vet=off", "-count=1", "./..."], cwd=dst, env=ENV, capture_output=True, text=True)
+            suite = "suite ok" if t.returncode == 0 else "SUITE FAILS"
+        procs = {q: subprocess.Popen([BIN, "-property", q, "-repo", dst, "-verif", HERE, "-no-evidence"], env=ENV, stdout=subprocess.PIPE, text=True) for q in props}
         fired = []
         for q, pr in procs.items():
             out = pr.communicate()[0]
             if pr.returncode != 0:
                 keys = [l.strip() for l in out.splitlines() if l.strip().startswith(("violated ", "UNRESOLVED", "ERROR"))][:2]
                 fired.append("%s(rc=%d): %s" % (q, pr.returncode, "; ".join(keys)))
-        rows.append((os.path.basename(p), suite, fired))
+        rows.append((p.replace(HERE + "/selftest/ALL/", ""), suite, fired))
         if fired: bad += 1
-        print(os.path.basename(p), suite, "->", fired or "silent", flush=True)
+        print(p, suite, "->", fired or "silent", flush=True)
     finally:
         shutil.rmtree(scratch, ignore_errors=True)
-with open(os.path.join(HERE, "selftest", "ALL", "RESULT.md"), "w") as f:
+with open(RESULT, "w") as f:
     f.write("# Behaviour-preserving variants vs all %d checks (tools/neg_sweep.py)\n\n| variant | suite | checks that fired |\n|---|---|---|\n" % len(props))
     for n, s, fired in rows:
         f.write("| %s | %s | %s |\n" % (n, s, "; ".join(fired) or "none"))
